@@ -19,6 +19,7 @@ import (
 	"verif/harness/gen"
 	"verif/harness/jv"
 	"verif/harness/model"
+	"verif/harness/oracle"
 	"verif/harness/sgen"
 )
 
@@ -365,7 +366,11 @@ func (b *refBuilder) factor(f *model.File, root *model.Node, depth int, maxPick 
 		for _, s := range mine {
 			*s.ptr = &model.Node{Kind: model.KRef, Ref: ref, Target: n}
 		}
-		if depth < 2 && n.Kind == model.KObject && rapid.IntRange(0, 9).Draw(b.t, "recurse") < 7 {
+		externalBranch := home != f && len(mine) > 0 && mine[0].inBranch
+		if externalBranch && b.c.Avoid("branches.external_branch_with_local_refs") {
+			// known finding: references local to the other document inside a branch taken from it
+			b.c.ExcludedMap()["branches.external_branch_with_local_refs"]++
+		} else if depth < 2 && n.Kind == model.KObject && rapid.IntRange(0, 9).Draw(b.t, "recurse") < 7 {
 			before := b.nfile
 			if b.factor(home, n, depth+1, 2) > 0 && home != f && b.nfile > before {
 				b.modes["hops.two_files"]++
@@ -585,6 +590,9 @@ func TestC10(t *testing.T) {
 		// two composition lists whose first branches become references to definitions of the
 		// same name in two different documents (local and in another file)
 		wantBranchRefs := rapid.IntRange(0, 9).Draw(rt, "branchrefs") < 3
+		// variant: both lists start with THE SAME definition and add different properties (what one
+		// list adds must not show up in the other)
+		sharedBase := false
 		brKind := model.KAllOf
 		brNames := []string{"zalpha", "zbeta"}
 		if wantBranchRefs {
@@ -595,12 +603,22 @@ func TestC10(t *testing.T) {
 				brNames = []string{"zbeta", "zalpha"}
 			}
 			kinds := rapid.Permutation([]model.Kind{model.KString, model.KInteger, model.KBoolean}).Draw(rt, "branchrefkinds")
+			sharedBase = brKind == model.KAllOf && rapid.IntRange(0, 2).Draw(rt, "sharedbase") == 0
 			for i, pn := range brNames {
 				base := &model.Node{Kind: model.KObject, Props: []model.Prop{
 					{Name: "id", Node: &model.Node{Kind: kinds[i]}},
 					{Name: fmt.Sprintf("only%d", i), Node: &model.Node{Kind: kinds[2]}},
 				}, Required: []string{"id", fmt.Sprintf("only%d", i)}[:1+i]}
 				extra := &model.Node{Kind: model.KObject, Props: []model.Prop{{Name: fmt.Sprintf("extra%d", i), Node: &model.Node{Kind: model.KBoolean}}}, Required: []string{fmt.Sprintf("extra%d", i)}}
+				if sharedBase {
+					nine := 9.0
+					base = &model.Node{Kind: model.KObject, Props: []model.Prop{{Name: "name", Node: &model.Node{Kind: model.KString}}}, Required: []string{"name"}}
+					if i == 0 {
+						extra = &model.Node{Kind: model.KObject, Props: []model.Prop{{Name: "lives", Node: &model.Node{Kind: model.KInteger, Maximum: &nine}}}, Required: []string{"lives"}}
+					} else {
+						extra = &model.Node{Kind: model.KObject, Props: []model.Prop{{Name: "barks", Node: &model.Node{Kind: model.KBoolean}}}}
+					}
+				}
 				S.Root.Props = append(S.Root.Props, model.Prop{Name: pn, Node: &model.Node{Kind: brKind, Branches: []*model.Node{base, extra}}})
 				S.Root.Required = append(S.Root.Required, pn)
 			}
@@ -630,6 +648,9 @@ func TestC10(t *testing.T) {
 				if i == 0 {
 					R.Defs = append(R.Defs, model.Def{Name: "Base", Node: base})
 					comp.Branches[0] = &model.Node{Kind: model.KRef, Ref: "#/$defs/Base", Target: base}
+				} else if sharedBase {
+					comp.Branches[0] = &model.Node{Kind: model.KRef, Ref: "#/$defs/Base", Target: R.Defs[len(R.Defs)-1].Node}
+					modes["branchrefs.shared_first_branch"]++
 				} else {
 					home := rb.newFile(mainDir, base, "Base")
 					comp.Branches[0] = &model.Node{Kind: model.KRef, Ref: rb.spellFileRef(mainDir, home.RelPath) + "#/$defs/Base", Target: base}
@@ -673,6 +694,27 @@ func TestC10(t *testing.T) {
 		inlineCase := caseOf(cfg, []string{S.RelPath}, S)
 		refCase := caseOf(cfg, []string{R.RelPath}, rb.files...)
 		jobs := buildJobs(rt, c, S.Root, rootType, plan, o, inlineCase)
+		if wantBranchRefs && sharedBase {
+			// what the other list adds is an undeclared key here: any value must be let through
+			oo := *o
+			oo.AllProps = true
+			if v, ok := docs.Valid(rt, S.Root, &oo); ok {
+				for _, pn := range brNames {
+					if inner, has := v.Get(pn); has && inner.K == jv.Obj {
+						for _, foreign := range []jv.KV{{K: "lives", V: jv.IntV(12)}, {K: "barks", V: jv.StrV("loud")}} {
+							if inner.Has(foreign.K) {
+								continue
+							}
+							nd := v.Set(pn, inner.Set(foreign.K, foreign.V))
+							if oracle.Accepts(S.Root, nd) {
+								jobs = append(jobs, core.Job{Type: rootType, Op: "json", Doc: string(nd.Marshal()), Expect: "accept", Label: "foreign-key:" + foreign.K})
+								c.Count("doc.foreign_key")
+							}
+						}
+					}
+				}
+			}
+		}
 		// referrer groups at root level
 		groups := map[string][]string{}
 		for _, p := range R.Root.Props {
